@@ -36,6 +36,8 @@ func (c17) Classes() []sim.Class {
 			sim.Class{Name: "gofs-mapfs", Engine: e, Quick: 600, Thorough: 20000},
 		)
 	}
+	// the read-only mount as the command-line tool offers it (cmd/wazero built from the tree under check)
+	cs = append(cs, sim.Class{Name: "cli-mount", Engine: "compiler", Quick: 24, Thorough: 600, NeedsCLI: true, RunTimeoutSec: 120})
 	return cs
 }
 
@@ -154,6 +156,9 @@ type roFd struct {
 }
 
 func (c17) Run(t *tape.Tape, cfg sim.Config) (res sim.Result) {
+	if cfg.Class == "cli-mount" {
+		return runCLIMount(t, cfg)
+	}
 	base := &runState{t: t, m: newModel(), res: &res, ro: true}
 	s := &roState{runState: base, class: cfg.Class, combos: map[string]bool{}, open: map[int32]*roFd{}}
 	e := &env{ctx: context.Background()}
